@@ -88,6 +88,18 @@ func (e epSpec) endpoint() *op.Endpoint {
 // relative route path of a configured endpoint path
 func rel(p string) string { return "/" + strings.TrimPrefix(p, "/") }
 
+// the client kinds of the model (C19_Discovery.client_kind) and the opfix.StdClients that stand for them
+type clientKind struct {
+	coq, id, secret, redirect, auth string
+}
+
+var clientKinds = []clientKind{
+	{"CBasic", "web", "web-secret", "https://web.example.com/cb", "basic"},
+	{"CPost", "web2", "web2-secret", "https://web2.example.com/cb", "post"},
+	{"CPKJWT", "pkjwt", "", "https://pk.example.com/cb", "private_key_jwt"},
+	{"CPublic", "spa", "", "https://spa.example.com/cb", "none"},
+}
+
 type fixture struct {
 	cfg      config
 	store    *refstore.Store
@@ -106,7 +118,13 @@ func build(c config) (*fixture, error) {
 	f := &fixture{cfg: c, saved: *op.DefaultEndpoints}
 	st := opfix.NewStd()
 	rk := opfix.RSAKey()
-	st.Clients["web"].Keys = map[string]*jose.JSONWebKey{"r1": {Key: &rk.PublicKey, KeyID: "r1", Algorithm: "RS256", Use: "sig"}}
+	for _, k := range clientKinds { // an RS256 key (request objects, private_key_jwt) registered for every client kind
+		cl := st.Clients[k.id]
+		if cl.Keys == nil {
+			cl.Keys = map[string]*jose.JSONWebKey{}
+		}
+		cl.Keys["r1"] = &jose.JSONWebKey{Key: &rk.PublicKey, KeyID: "r1", Algorithm: "RS256", Use: "sig"}
+	}
 	f.store = st
 	conf := &op.Config{
 		CryptoKey:                [32]byte{1, 2, 3},
